@@ -194,6 +194,17 @@ def _run_one(exe, extra, line, timeout):
             return o[1]
         return '(abort %d)' % p.returncode
     except subprocess.TimeoutExpired:
+        pass
+    # a case that is slow only because the machine is busy gets a second, much longer chance on its own; a real
+    # hang is still reported, a little later
+    try:
+        p = subprocess.run([exe] + list(extra), input=line + '\n', capture_output=True, text=True,
+                           timeout=max(120, 12 * timeout), env=ENV, preexec_fn=_pre(exe))
+        o = p.stdout.strip().split(' ', 1)
+        if p.returncode == 0 and len(o) == 2:
+            return o[1]
+        return '(abort %d)' % p.returncode
+    except subprocess.TimeoutExpired:
         return '(timeout)'
 
 
@@ -221,7 +232,7 @@ def run_lines(exe, lines, extra=(), timeout=300, shards=NPROC, case_timeout=10):
             return {}
         if len(part) == 1:
             return {part[0].split(' ', 1)[0]: _run_one(exe, extra, part[0], case_timeout)}
-        stdout, rc = _run_shard((exe, list(extra), part, case_timeout + 0.01 * len(part)))
+        stdout, rc = _run_shard((exe, list(extra), part, 3 * case_timeout + 1.0 * len(part)))
         got = absorb(part, stdout)
         if rc == 0 and len(got) == len(part):
             return got
